@@ -378,6 +378,10 @@ pub fn finish(def: &CheckDef, tier: Tier, seed: u64, mut merged: Partial, t0: In
         seen.entry(case_hash(&v)).or_insert(v);
     }
     let mut new_viol = vec![];
+    let mut by_class: BTreeMap<String, u64> = BTreeMap::new();
+    for v in seen.values() {
+        *by_class.entry(v.class.clone()).or_insert(0) += 1;
+    }
     let mut known_hits: BTreeMap<String, (String, u64)> = BTreeMap::new();
     for (h, v) in seen {
         let hit = known.findings.iter().find(|(p, k, _)| p == def.id && (k == &format!("case:{}", h) || k == &format!("class:{}", v.class)));
@@ -441,6 +445,7 @@ pub fn finish(def: &CheckDef, tier: Tier, seed: u64, mut merged: Partial, t0: In
     for (k, v) in &merged.notes {
         cov.insert(k.clone(), v.clone());
     }
+    cov.insert("deviations_by_class".into(), json!(by_class));
     cov.insert("known_findings_hit".into(), json!(known_hits.iter().map(|(k, (_, n))| (k.clone(), *n)).collect::<BTreeMap<_, _>>()));
     let ev = json!({
         "property_id": def.id,
